@@ -152,6 +152,17 @@ func isFresh(P *Program, v ssa.Value, depth int) bool {
 				continue
 			}
 			return false
+		case *ssa.IndexAddr:
+			// element of an array or slice literal built in this activation
+			if isFresh(P, x.X, depth) {
+				continue
+			}
+			return false
+		case *ssa.Slice:
+			if _, isAlloc := x.X.(*ssa.Alloc); isAlloc {
+				continue
+			}
+			return false
 		default:
 			return false
 		}
@@ -303,7 +314,9 @@ func checkC16(c *Check) {
 			}
 		}
 	}
-	sort.Slice(all, func(i, j int) bool { return all[i].Pos() < all[j].Pos() || (all[i].Pos() == all[j].Pos() && all[i].String() < all[j].String()) })
+	sort.Slice(all, func(i, j int) bool {
+		return all[i].Pos() < all[j].Pos() || (all[i].Pos() == all[j].Pos() && all[i].String() < all[j].String())
+	})
 	c.extra["concurrent_functions"] = len(all)
 	var rootNames []string
 	for _, r := range roots {
